@@ -25,6 +25,10 @@ pub enum Answer {
     LieNoPush,
     /// misbehaving host (C07 only): push two values, Ok(true)
     LiePushTwo,
+    /// BasicGarnishData: compact the store (`optimize(&[])`) inside the callback, then answer. The operands of
+    /// the operation being offered are off the stacks by then; the host may not use their addresses afterwards
+    /// and the scripted host does not. Skipped when the host's `compacts_in_callbacks` is off (twin worlds).
+    Compact(Box<Answer>),
 }
 
 impl Answer {
@@ -35,6 +39,7 @@ impl Answer {
             Answer::Provide(_) => "provide",
             Answer::Fail => "fail",
             Answer::Churn(_, _) => "churn",
+            Answer::Compact(_) => "compact-in-callback",
             Answer::LieNoPush => "lie-nopush",
             Answer::LiePushTwo => "lie-pushtwo",
         }
@@ -115,6 +120,9 @@ pub struct Host {
     pub fired_churn: usize,
     pub fired_lie: usize,
     pub fired_accept: usize,
+    pub fired_compact_in_callback: usize,
+    /// twin worlds (the "nothing happened" reference) turn this off: `Answer::Compact` then only answers
+    pub compacts_in_callbacks: bool,
     /// when false the host records nothing and declines everything (cheap no-op mode)
     pub recording: bool,
 }
@@ -134,7 +142,7 @@ impl PartialOrd for Host {
 
 impl Host {
     pub fn new(script: HostScript) -> Self {
-        Host { script, log: vec![], calls: 0, unique: 0, log_cap: 4000, overflow: false, fired_fail: 0, fired_decline: 0, fired_churn: 0, fired_lie: 0, fired_accept: 0, recording: true }
+        Host { script, log: vec![], calls: 0, unique: 0, log_cap: 4000, overflow: false, fired_fail: 0, fired_decline: 0, fired_churn: 0, fired_lie: 0, fired_accept: 0, fired_compact_in_callback: 0, compacts_in_callbacks: true, recording: true }
     }
 
     pub fn reset_run(&mut self) {
@@ -195,6 +203,18 @@ fn perform<D: GD + HasHost>(data: &mut D, answer: &Answer) -> Result<(bool, Opti
                 let a = data.add_number(garnish_lang_simple_data::SimpleNumber::Integer(7_000_000 + i as i32))?;
                 let b = data.add_symbol(0xC0FFEE + i as u64)?;
                 data.add_pair((b, a))?;
+            }
+            perform(data, then)
+        }
+        Answer::Compact(then) => {
+            if data.host().compacts_in_callbacks {
+                let any: &mut dyn std::any::Any = data;
+                if let Some(b) = any.downcast_mut::<crate::simdata::BasicW>() {
+                    // a refused compaction (store full) changes nothing the host relies on
+                    if b.optimize(&[]).is_ok() {
+                        b.companion_mut().fired_compact_in_callback += 1;
+                    }
+                }
             }
             perform(data, then)
         }
